@@ -373,9 +373,9 @@ func Returns(fn *ssa.Function) []*ssa.Return {
 		if len(b.Instrs) == 0 {
 			continue
 		}
-		// the synthetic recover block runs only after a recovered panic; the
-		// module never calls recover(), so its return is dead code.
-		if b == fn.Recover {
+		// the synthetic recover block runs only after a recovered panic: it is a real exit only
+		// for functions that defer a recover()
+		if b == fn.Recover && !Recovers(fn) {
 			continue
 		}
 		if r, ok := b.Instrs[len(b.Instrs)-1].(*ssa.Return); ok {
@@ -430,7 +430,51 @@ func Reach(fn *ssa.Function, from ssa.Instruction, cut CutFunc, stop func(ssa.In
 	}
 	b := from.Block()
 	walk(b, indexIn(b, from)+1)
+	// a function that recovers from panics can leave through its recover block from anywhere
+	if fn.Recover != nil && !entered[fn.Recover] && Recovers(fn) {
+		entered[fn.Recover] = true
+		walk(fn.Recover, 0)
+	}
 	return reached
+}
+
+// Recovers reports whether fn defers a function (literal or module function, two levels deep) that
+// calls recover(): only then is go/ssa's synthetic recover block — which returns the named results
+// as they are at the time of the panic — a real exit of fn.
+func Recovers(fn *ssa.Function) bool {
+	var calls func(f *ssa.Function, d int) bool
+	calls = func(f *ssa.Function, d int) bool {
+		if f == nil || f.Blocks == nil || d > 2 {
+			return false
+		}
+		for _, in := range AllInstrs(f) {
+			ci, ok := in.(ssa.CallInstruction)
+			if !ok {
+				continue
+			}
+			if bi, ok := ci.Common().Value.(*ssa.Builtin); ok && bi.Name() == "recover" {
+				return true
+			}
+			if g := ci.Common().StaticCallee(); g != nil && d < 2 && calls(g, d+1) {
+				return true
+			}
+		}
+		return false
+	}
+	for _, in := range AllInstrs(fn) {
+		d, ok := in.(*ssa.Defer)
+		if !ok {
+			continue
+		}
+		g := d.Common().StaticCallee()
+		if g == nil {
+			g = ClosureFn(d.Common().Value)
+		}
+		if calls(g, 0) {
+			return true
+		}
+	}
+	return false
 }
 
 // ReachAt is Reach starting AT instruction `at` (inclusive): at itself is
